@@ -11,18 +11,18 @@ RULE = ("exhaustive sweeps (digest compared between model and real classes, viol
         "q<=5 (thorough); plus boundary-biased random 32-bit wrap tuples and random grid pairs for q=2..30, and the "
         "decoders on arbitrary corrections; distinct op lines are the non-trivial cases")
 THEOREM_BACKED = ('wrap transform (all 32-bit predictions), canonicalized + legacy octahedral transform (all q in 2..30); '
-                  'SOURCE = MODEL: 15 obligations source_{modMax, makePositive, isInDiamond, invertDiamond, rotationCount, '
-                  'rotatePoint, isInBottomLeft, octaDecode, octaEncode, wrapClamp, wrapInit, wrapDecode, wrapEncode, '
-                  "addAsUnsigned, msb}_is_model — the C++ functions, translated mechanically from clang's AST of the "
-                  'working tree on every run (tools/vlib/xlate.py -> lean/Generated/Funcs.lean), are proved equal to the '
-                  'model functions the round-trip theorems are about')
+                  'SOURCE = MODEL: 18 obligations source_{modMax, makePositive, isInDiamond, invertDiamond, rotationCount, '
+                  'rotatePoint, isInBottomLeft, octaDecode, octaEncode, octaLegacyDecode, octaLegacyEncode, wrapClamp, '
+                  'wrapInit, wrapDecode, wrapEncode, addAsUnsigned, msb, parallelogramComponent}_is_model — the C++ '
+                  "functions, translated mechanically from clang's AST of the working tree on every run "
+                  '(tools/vlib/xlate.py -> lean/Generated/Funcs.lean), are proved equal to the model functions the '
+                  'round-trip theorems are about')
 EXPLANATION = ('wrap_roundtrip (full statement) / octa_roundtrip proved in Lean for every input; the integer functions '
                "of the tool box, the canonicalized transform's ComputeOriginalValue / ComputeCorrection and the wrap "
                "transform's per-component cores are not only hand-transcribed: their mechanical translation from the "
-               'source is proved equal to the model (a source change breaks the obligation); the loops over components, '
-               'array aliasing and the legacy transform are tied to the real template classes by exhaustive small-domain'
-               " digests and random cases only. Trusted for the translation: clang-14's AST, tools/vlib/xlate.py, "
-               'DracoModel/CInt.lean')
+               'source is proved equal to the model (a source change breaks the obligation); the loops over components '
+               'and array aliasing are tied to the real template classes by exhaustive small-domain digests and random '
+               "cases only. Trusted for the translation: clang-14's AST, tools/vlib/xlate.py, DracoModel/CInt.lean")
 INT_MIN, INT_MAX = -2 ** 31, 2 ** 31 - 1
 
 
